@@ -4,6 +4,7 @@ mod dft;
 mod fhe;
 mod hal;
 mod ks;
+mod lut;
 mod mul;
 mod rand;
 mod tmpbytes;
@@ -149,6 +150,21 @@ fn main() {
             }
             out.flush().unwrap();
             println!("ks: {} events", cases.len());
+        }
+        // lut <descriptors.ndjson> <events.ndjson>
+        "lut" => {
+            let cases = read_ndjson(&args[2]);
+            let mut out = BufWriter::new(std::fs::File::create(&args[3]).unwrap());
+            for (idx, c0) in cases.iter().enumerate() {
+                let mut c = c0.clone();
+                if c.get("id").is_none() {
+                    c["id"] = serde_json::json!(idx + 1);
+                }
+                let ev = lut::run_lut(&c);
+                writeln!(out, "{}", serde_json::to_string(&ev).unwrap()).unwrap();
+            }
+            out.flush().unwrap();
+            println!("lut: {} events", cases.len());
         }
         // fhe <descriptors.ndjson> <events.ndjson>
         "fhe" => {
